@@ -219,6 +219,35 @@ EXTRA3 = {
 for _pid, (_t, _x) in EXTRA3.items():
     CLAIMS[_pid]["technique"] += _t
     CLAIMS[_pid]["text"] += _x
+EXTRA4 = {
+ "C01": ("; in-place, bytearray, associated-data-only and extra-cipher-parameter variants of the compositions", ""),
+ "C02": ("; extra cipher parameters reach every underlying cipher instance (composition rows)", ""),
+ "C03": ("; HMAC object histories over a functional stand-in hash; Poly1305-ChaCha20 key derivation rows",
+         " Also decided: HMAC digest() is an observer and copies continue independently (histories against Python's hmac); the one-time Poly1305 key uses 00000000 || nonce for 64-bit nonces."),
+ "C04": ("; EdDSA point decoding composition against RFC 8032; long-form length rows for DER signatures", ""),
+ "C05": ("; RSA.construct from (n, e, d) on moduli that are not products of two primes; ElGamal.generate intervals", ""),
+ "C06": ("; ec_ws_cmp pair rows; Edwards negation/compare on special points; ECDH with x = 0 of a finite point", ""),
+ "C07": ("; label retention rule", ""),
+ "C08": ("; PBES2 encrypt/decrypt and PKCS#8 wrap/unwrap round trips for every protection string over tagged KDFs and keyed stand-in ciphers; ec_ws_cmp pair rows on the C evaluator",
+         " Also decided: every protection string the PBES2 writer offers is read back by the reader with the same derived key, and another passphrase never returns the data."),
+ "C09": ("; retention rule treats memoryview slices as views", ""),
+ "C10": ("; AEAD compositions as permitted-sequence rows (pieces, in place, declared zero lengths)", ""),
+ "C11": ("; counter wrap with small pieces on the C evaluator", ""),
+ "C12": ("; scrypt composition rows (RFC 7914 6), HKDF-Expand at 255*HashLen, bytearray arguments unchanged", ""),
+ "C13": ("; X.509 shape rows, strict SEQUENCE member rows, PBES2 round trips incl. the empty plaintext", ""),
+ "C14": ("; prime generation over scripted draw / verdict tapes", " Also decided: generate_probable_prime returns the first drawn candidate that passed, of exactly the requested size."),
+ "C15": ("; decoder-length and point-constructor refusal rows", ""),
+ "C16": ("; result types in the Integer table; Montgomery tables of the custom-C back-end", ""),
+ "C17": ("; prototype arity of every (point class, curve) pair against the C prototypes; strxor buffer-length rows; bounds-checked big-number rows on the C evaluator",
+         " Also decided: every native call of the point layer has the argument count of the prototype bound by the object's curve, or the curve is refused before any native call."),
+ "C18": ("; prime generation over scripted draw / verdict tapes", ""),
+ "C19": ("; ownership-based read-only-operand rule on the C evaluator; shared curve / Montgomery contexts read-only after construction (clang AST with callee write analysis); container arguments never modified (rule P4)",
+         " Also decided (necessary conditions for thread independence, not an interleaving analysis): native observers and read-only operands write nothing into the points they read; no function writes through a shared curve context after its construction; no public function modifies a list / dict argument."),
+ "C20": ("; powers of degree exactly 128 before reduction; zero coefficients / zero secrets / draw counts in split tapes", ""),
+}
+for _pid, (_t, _x) in EXTRA4.items():
+    CLAIMS[_pid]["technique"] += _t
+    CLAIMS[_pid]["text"] += _x
 CLAIMS["C16"]["text"] = CLAIMS["C16"]["text"].replace(" Bit-for-bit equality of the AES round functions / GHASH multipliers and of libgmp's arithmetic is not decided.", " Equality of the AES round functions / GHASH multipliers beyond the tables, and libgmp's arithmetic, are not decided.")
 CLAIMS["C04"]["note"] += " Two recorded findings are in known_findings.json (status known): C04 sign() without retry on a zero component."
 
